@@ -20,6 +20,7 @@ package msgpipeline
 
 import (
 	"context"
+	"sync"
 
 	"github.com/emersion/go-message/textproto"
 	"github.com/emersion/go-smtp"
@@ -258,6 +259,11 @@ type delivery struct {
 	module.Delivery
 	// Recipient addresses this delivery object is used for, original values (not modified by RewriteRcpt).
 	recipients []string
+	// Original values for each address passed to AddRcpt of this delivery
+	// object, in order of calls. Unlike MsgMetadata.OriginalRcpts, it can
+	// represent the same address being passed multiple times (e.g.
+	// specified directly and also being a result of rewriting).
+	originalRcpts map[string][]string
 }
 
 type msgpipelineDelivery struct {
@@ -368,6 +374,10 @@ func (dd *msgpipelineDelivery) AddRcpt(ctx context.Context, to string, opts smtp
 					return wrapErr(err)
 				}
 				delivery.recipients = append(delivery.recipients, originalTo)
+				if delivery.originalRcpts == nil {
+					delivery.originalRcpts = map[string][]string{}
+				}
+				delivery.originalRcpts[to] = append(delivery.originalRcpts[to], originalTo)
 			}
 		}
 	}
@@ -436,15 +446,22 @@ func (dd *msgpipelineDelivery) Body(ctx context.Context, header textproto.Header
 // collect-and-them-report approach since statuses should be reported
 // as soon as possible (that is required by LMTP).
 type statusCollector struct {
-	originalRcpts map[string]string
+	lock          sync.Mutex
+	originalRcpts map[string][]string
 	wrapped       module.StatusCollector
 }
 
-func (sc statusCollector) SetStatus(rcptTo string, err error) {
-	original, ok := sc.originalRcpts[rcptTo]
-	if ok {
-		rcptTo = original
+func (sc *statusCollector) SetStatus(rcptTo string, err error) {
+	// If the same address was passed to the target multiple times, each
+	// status is attributed to the next original recipient.
+	sc.lock.Lock()
+	if originals := sc.originalRcpts[rcptTo]; len(originals) != 0 {
+		if len(originals) > 1 {
+			sc.originalRcpts[rcptTo] = originals[1:]
+		}
+		rcptTo = originals[0]
 	}
+	sc.lock.Unlock()
 	sc.wrapped.SetStatus(rcptTo, err)
 }
 
@@ -507,8 +524,8 @@ func (dd *msgpipelineDelivery) BodyNonAtomic(ctx context.Context, c module.Statu
 	for _, delivery := range dd.deliveries {
 		partDelivery, ok := delivery.Delivery.(module.PartialDelivery)
 		if ok {
-			partDelivery.BodyNonAtomic(ctx, statusCollector{
-				originalRcpts: dd.msgMeta.OriginalRcpts,
+			partDelivery.BodyNonAtomic(ctx, &statusCollector{
+				originalRcpts: delivery.originalRcpts,
 				wrapped:       c,
 			}, header, body)
 			continue
